@@ -94,10 +94,10 @@ def validate_trace(module, cfg_text, tag, trace_path, timeout=600, env=None, hea
     r = _run(module, cfg_text, tag, 1, timeout, env=e, java_opts=TRACE_JAVA, heap=heap, coverage=False,
              extra=[])
     r["bad"] = []
-    for m in re.finditer(r'^<<"BAD", (\{[^}]*\}), (\d+)>>', r.get("raw", ""), re.M):
+    for m in re.finditer(r'<<\s*"BAD",\s*(\{[^}]*\}),\s*(\d+)\s*>>', r.get("raw", "")):
         labels = re.findall(r'"([^"]+)"', m.group(1))
         r["bad"].append((int(m.group(2)), labels))
-    m = re.search(r'^<<"UNMATCHED", (\d+)', r.get("raw", ""), re.M)
+    m = re.search(r'<<\s*"UNMATCHED",\s*(\d+)', r.get("raw", ""))
     r["unmatched"] = int(m.group(1)) if m else None
     if r["timed_out"]:
         raise ToolError("TLC timed out validating %s" % trace_path)
